@@ -285,21 +285,63 @@ DERIVED = ["face_jacobian", "face_areas", "n_nodes_per_face", "n_edge", "edge_no
            "hole_edge_indices", "antimeridian_face_indices", "face_jacobian"]
 
 
+TIMES = {}
+
+
+RD = {"node_lon": 0, "node_lat": 1, "face_areas": 2, "face_jacobian": 3}
+
+
+def qs(vals):
+    return [list(float(x).as_integer_ratio()) for x in vals]
+
+
+def lazy_job(g, reads, derived_lon, areas0, lon0=None):
+    """model of the lazy getters on the same read history: (line, payload)"""
+    ds = g._ds
+    got_lon = np.asarray(ds["node_lon"].values, dtype=float).tolist() if "node_lon" in ds else None
+    got_areas = np.asarray(ds["face_areas"].values, dtype=float).tolist() if "face_areas" in ds else None
+    line = sx([qs(derived_lon), qs([0.0]), ("N" if lon0 is None else qs(lon0)), ("N" if areas0 is None else qs(areas0)),
+               [RD.get(n, 4) for n in reads]])
+    return line, (got_lon, got_areas, areas0)
+
+
+def compare_lazy(mo, payload):
+    from fractions import Fraction
+    got_lon, got_areas, areas0 = payload
+    if isinstance(mo, list) and mo and mo[0] == "ERR":
+        return "model error %s" % mo
+    mlon, mar = mo
+    if (mlon is None) != (got_lon is None):
+        return "node_lon stored: model %s impl %s" % (mlon is not None, got_lon is not None)
+    if mlon is not None:
+        for (n, dd), x in zip(mlon, got_lon):
+            df = abs(Fraction(n, dd) - Fraction(x))
+            if min(df, abs(df - 360)) > Fraction(1, 10 ** 9) or not (-180.0 <= x <= 180.0):
+                return "node_lon after the reads: model %s impl %r" % (float(Fraction(n, dd)), x)
+    if areas0 is not None:
+        if mar is None or got_areas is None or [float(Fraction(n, dd)) for n, dd in mar] != got_areas:
+            return "supplied face_areas after the reads: model %s impl %s" % (str(mar)[:100], str(got_areas)[:100])
+    return None
+
+
 def touch(g, names):
     """read attributes in the given order; failures of derived quantities are other properties' business"""
+    import time
     for nm in names:
+        t0 = time.perf_counter()
         try:
             v = getattr(g, nm)
             if hasattr(v, "values"):
                 v.values
         except Exception:
             pass
+        TIMES[nm] = TIMES.get(nm, 0.0) + time.perf_counter() - t0
 
 
-def derive_all(g, rng_key):
+def derive_all(g, rng_key, thorough=False):
     names = list(DERIVED)
-    if g.n_face <= 12 and rng_key % 4 == 0:
-        names.append("bounds")
+    if thorough and g.n_face <= 12 and rng_key % 4 == 0:
+        names.append("bounds")          # slow (JIT compilation of the whole geometry module): thorough tier only
     if rng_key % 2:
         names.reverse()
     touch(g, names)
@@ -597,7 +639,7 @@ def gen_cases(ck):
             c["kind"] = "corpus"
             cases.append(c)
     cases += sweep_cases(rng, ck.tier)
-    n_rand = 2400 if ck.tier == "quick" else 24000
+    n_rand = 2000 if ck.tier == "quick" else 24000
     for i in range(n_rand):
         cases.append(random_case(rng, big=(ck.tier == "thorough" and i % 40 == 0)))
     if ck.tier == "thorough":
@@ -905,6 +947,7 @@ def run_case(ck, c, stats, collect):
     repeat = path is None and fmt not in ("geo", "exodus_fixture")
     snap0 = snapshot(src) if repeat else None
     fp1 = None
+    lazy = None
     try:
         with contextlib.redirect_stdout(io.StringIO()), warnings.catch_warnings():
             warnings.simplefilter("ignore")
@@ -913,6 +956,13 @@ def run_case(ck, c, stats, collect):
             order = c.get("order", c.get("idx", 0) % len(ORDERS))
             case["order"] = order
             touch(g, ORDERS[order])          # which attribute is read first is part of the quantifier
+            lazy = None
+            if collect is not None and fmt == "fv" and d["coords"] == "xyz" and all(k in g._ds for k in ("node_x", "node_y", "node_z")):
+                xs, ys, zs = (np.asarray(g._ds[k].values, dtype=float) for k in ("node_x", "node_y", "node_z"))
+                nr = np.sqrt(xs * xs + ys * ys + zs * zs)
+                dl = [0.0 if abs(z / n) > 1.0 - 1e-8 else math.degrees(math.atan2(y, x)) % 360.0
+                      for x, y, z, n in zip(xs.tolist(), ys.tolist(), zs.tolist(), nr.tolist())]
+                lazy = lazy_job(g, ORDERS[order], dl, None)
             fails = spec_check(ex, g)
             structural = any(cl in ("shape", "n_face", "n_node") for cl, _ in fails)
             seen = {cl for cl, _ in fails}
@@ -922,9 +972,13 @@ def run_case(ck, c, stats, collect):
                     seen.add(("aux", k))
                 # everything else the grid can derive is read, then the clauses and every supplied variable are
                 # compared with the source again: only failures that were not there before are reported here
-                if c.get("kind") != "random" or seed % 5 == 0 or (fmt == "mpas" and seed % 2 == 0):
-                    derive_all(g, seed)
+                if ("order" in c or c.get("kind") in ("corpus", "replay") or seed % 5 == 0 or (fmt == "mpas" and seed % 2 == 0)
+                        or ck.tier == "thorough" and c.get("kind") == "sweep"):
+                    derive_all(g, seed, ck.tier == "thorough")
                     stats["derived_all"] = stats.get("derived_all", 0) + 1
+                    if collect is not None and "areas" in ex.aux:
+                        # longitudes come from the source here: they must stay what the freshly built grid held
+                        lazy = lazy_job(g, ORDERS[order] + DERIVED, [], ex.aux["areas"], lon0=fp1["node_lon"][0].tolist())
                     for cl, det in spec_check(ex, g):
                         if cl not in seen:
                             fails.append(("after_reads_" + cl, det))
@@ -967,6 +1021,8 @@ def run_case(ck, c, stats, collect):
         stats["ok"][fmt] = stats["ok"].get(fmt, 0) + 1
     if collect is not None:
         try:
+            if fp1 is not None and lazy is not None:
+                collect.setdefault("lazy", []).append((lazy[0], "lazy", lazy[1], case))
             for cmd, line, kind, payload in model_jobs(c, src, ex, image, g):
                 collect.setdefault(cmd, []).append((line, kind, payload, case))
             for cmd, line, payload in wrap_jobs(c, src, ex, g):
@@ -1033,6 +1089,8 @@ def main(ck):
                 n_cmp += 1
                 if kind == "wrap":
                     bad = compare_wrap(mo, payload)
+                elif kind == "lazy":
+                    bad = compare_lazy(mo, payload)
                 elif kind == "sniff":
                     want, got = payload
                     bad = None
@@ -1044,6 +1102,7 @@ def main(ck):
                     ck.corr_failures.append({"cmd": cmd, "case": case, "diff": bad})
     audit_n = audit(ck, collect) if collect else 0
     if os.environ.get("C01_DEBUG"):
+        sys.stderr.write("TIMES " + json.dumps({k: round(v, 1) for k, v in sorted(TIMES.items(), key=lambda kv: -kv[1])[:12]}) + "\n")
         for cf in ck.corr_failures[:12]:
             sys.stderr.write("CORR " + json.dumps({k: (v if k != "case" else {"fmt": v["fmt"], "dialect": v["dialect"], "idx": v["idx"]})
                                                    for k, v in cf.items()}, default=str)[:1500] + "\n")
